@@ -115,6 +115,13 @@ def jobs_for(tier, seed):
                      {'two', 'tracked', 'stdalloc'}, 'two N=2,2 std::allocator'))
         J.append(job(mx(2, 5), drv(2, elem=NT, MAXSZ=5), 0, 2500, {'max', 'tracked'}, 'max_size()=5, N=2'))
         J.append(job(mx(0, 6), drv(0, elem=TRIV, MAXSZ=6), 0, 1500, {'max', 'triv'}, 'max_size()=6, N=0 trivially copyable'))
+        # long random behaviours (tlc -simulate): state the shape abstraction does not contain (moved-from leftovers,
+        # stale bytes, block-id history); faults on the last call only
+        tr = ALL_TRAITS[(rot * 3 + 1) % 16]
+        J.append(job(dict(two(2, 2, maxlen=4, maxcap=16, **traits_mc(*tr)), Sim=[50, 40]), drv(2, 2, elem=TM, **traits_drv(*tr)), 1, None,
+                     {'two', 'tracked', 'traits', 'fault', 'sim'}, 'long random behaviours (40 calls), two N=2,2 traits %d%d%d%d' % tr))
+        J.append(job(dict(one(2, maxlen=5, maxcnt=2), Sim=[40, 40]), drv(2, elem=NT), 1, None,
+                     {'one', 'tracked', 'fault', 'sim'}, 'long random behaviours (40 calls), one N=2'))
         # narrow size_type: boundary arguments around max_size() and around 2^8 (C12), 8-bit exhaustively in thorough
         J.append(job(wide(2, 63), drv(2, elem=TRIV, SIZET=8), 0, None, {'max', 'triv', 'narrow'}, '8-bit size_type, N=2 trivially copyable, boundary arguments'))
         J.append(job(wide(0, 21), drv(0, elem=NT, SIZET=8), 1, 500, {'max', 'tracked', 'narrow', 'fault'}, '8-bit size_type, N=0 nothrow-move, boundary arguments + faults'))
@@ -154,6 +161,14 @@ def jobs_for(tier, seed):
         for (N, M) in ((2, 5), (0, 6), (3, 7)):
             J.append(job(mx(N, M), drv(N, elem=NT, MAXSZ=M), 1, None, {'max', 'tracked', 'fault'}, 'max_size()=%d N=%d' % (M, N)))
             J.append(job(mx(N, M), drv(N, elem=TRIV, MAXSZ=M), 0, None, {'max', 'triv'}, 'max_size()=%d N=%d trivially copyable' % (M, N)))
+        for i in range(16):
+            tr = ALL_TRAITS[i]
+            na, nb = ((2, 2), (0, 2), (3, 2), (2, 3))[i % 4]
+            J.append(job(dict(two(na, nb, maxlen=4, maxcap=16, **traits_mc(*tr)), Sim=[150, 100]), drv(na, nb, elem=(TM, NT, MA, MC)[(i // 4) % 4], **traits_drv(*tr)), 1, None,
+                         {'two', 'tracked', 'traits', 'fault', 'sim', 'mixedN'}, 'long random behaviours (100 calls), two N=%d,%d traits %d%d%d%d' % ((na, nb) + tr)))
+        for N, el, cp, nt in ((2, NT, True, True), (0, TM, True, False), (3, MOT, False, False), (1, CO, True, True), (2, TRIV, True, True)):
+            J.append(job(dict(one(N, copyable=cp, nothrow=nt, maxlen=6, maxcnt=3), Sim=[150, 100]), drv(N, elem=el), 1 if el != TRIV else 0, None,
+                         {'one', 'tracked' if el != TRIV else 'triv', 'fault', 'sim'}, 'long random behaviours (100 calls), one N=%d elem=%d' % (N, el)))
         for N in (0, 2, 3):
             J.append(job(wide(N, 63), drv(N, elem=TRIV, SIZET=8), 0, None, {'max', 'triv', 'narrow'}, '8-bit size_type, N=%d trivially copyable, boundary arguments' % N))
             J.append(job(wide(N, 63), drv(N, elem=INT, SIZET=8), 0, None, {'max', 'triv', 'narrow'}, '8-bit size_type, N=%d int, boundary arguments' % N))
